@@ -6,7 +6,7 @@ LEVEL = "proof"
 FAMILY = "cont"
 
 # kinds with an extracted Coq model (correspondence leg); every kind has the lock-step std:: oracle
-MODELLED = {"vi", "vs", "m", "s", "d", "st"}
+MODELLED = {"vi", "vs", "m", "s", "d", "st", "l"}
 
 LF = [(3, 4), (3, 4), (1, 2), (1, 1), (2, 1), (3, 2), (1, 4)]      # dyadic load factors: exact as doubles
 
